@@ -17,4 +17,21 @@ long tree_fn(long node, long poison)
   return body ? body(node, poison, LIBID) : -1;
 }
 int lib_id(void) { return LIBID; }
-int n1(int x) { return x + LIBID; }
+typedef void (*ran_t)(int, const char*);
+int n1(int x)
+{
+  /* drivers that want to know which library ran export harness_ran */
+  static ran_t ran = NULL;
+  static int looked = 0;
+  if (!looked) {
+    ran = (ran_t)dlsym(RTLD_DEFAULT, "harness_ran");
+    looked = 1;
+  }
+  if (ran) {
+    ran(LIBID, "n1");
+  }
+  return x + LIBID;
+}
+/* call an entry point the library was given (callback trampolines are host functions) */
+int callA_raw(unsigned long long entry, int arg) { return ((int (*)(int))entry)(arg); }
+long callB_raw(unsigned long long entry, int a, int b) { return ((long (*)(int, int))entry)(a, b); }
